@@ -81,6 +81,14 @@ def _impl(tier, seed, search):
         w = g.normal(size=3) * _mag(g); sw = max(np.abs(w))
         L.close('dot-world', b.dot(a, w), 0.5 * b.qqmul(b.pure(w), a), 1e-9, sa * sw, dict(q=a, w=w))
         L.close('dot-body', b.dotb(a, w), 0.5 * b.qqmul(a, b.pure(w)), 1e-9, sa * sw, dict(q=a, w=w))
+        # the class methods are the same bilinear maps of the stored value — also when that value is not exactly of unit length
+        if i % 4 == 1:
+            for nm_, qv_ in (('unit', a / sa), ('drifted', a / sa * (1 + 10.0 ** g.uniform(-8, -3))), ('general', a)):
+                ok, r = L.noraise(f'UQ.dot/dotb({nm_})', lambda: (UnitQuaternion(qv_[0], qv_[1:], norm=False).dot(w), UnitQuaternion(qv_[0], qv_[1:], norm=False).dotb(w)), dict(q=qv_, w=w), 'UnitQuaternion.dot / dotb')
+                if ok:
+                    sq_ = max(1e-300, float(np.max(np.abs(qv_))))
+                    L.close('UQ.dot', np.asarray(r[0], float), 0.5 * b.qqmul(b.pure(w), qv_), 1e-9, sq_ * sw, dict(q=qv_, w=w, kind=nm_), what='UnitQuaternion.dot is not (1/2) pure(w) q for the stored value', sig='class-dot')
+                    L.close('UQ.dotb', np.asarray(r[1], float), 0.5 * b.qqmul(qv_, b.pure(w)), 1e-9, sq_ * sw, dict(q=qv_, w=w, kind=nm_), what='UnitQuaternion.dotb is not (1/2) q pure(w) for the stored value', sig='class-dot')
         # integer powers |n| <= 6 on moderately scaled quaternions
         am = a / max(sa, 1e-300) * 10.0 ** g.uniform(-1, 1)
         k = int(g.integers(-6, 7))
@@ -158,6 +166,12 @@ def _impl(tier, seed, search):
             if ok: L.close('dq-assoc', r[0], r[1], 1e-9, 8.0, inp)
             ok, r = L.noraise('dq-matrix', lambda: (A.matrix() @ B.vec, (A * B).vec), inp, 'DualQuaternion.matrix')
             if ok: L.close('dq-matrix', r[0], r[1], 1e-9, 8.0, inp)
+            # sums and differences are component-wise on the 8-vector; the product distributes over them on either side
+            ok, r = L.noraise('dq-add', lambda: ((A + B).vec, (B + A).vec, (A - B).vec, (A * (B + C)).vec, (A * B).vec + (A * C).vec, ((B + C) * A).vec, (B * A).vec + (C * A).vec, ((A - B) + B).vec), inp, 'DualQuaternion sum / difference')
+            if ok:
+                L.close('dq-add', r[0], A.vec + B.vec, 1e-12, 8.0, inp, what='the sum of two dual quaternions is not the component-wise sum', sig='dq-add'); L.close('dq-add:commutes', r[1], r[0], 1e-12, 8.0, inp, sig='dq-add')
+                L.close('dq-sub', r[2], A.vec - B.vec, 1e-12, 8.0, inp, sig='dq-add'); L.close('dq-distributes(left)', r[3], r[4], 1e-9, 16.0, inp, sig='dq-add'); L.close('dq-distributes(right)', r[5], r[6], 1e-9, 16.0, inp, sig='dq-add')
+                L.close('dq-(A-B)+B', r[7], A.vec, 1e-12, 8.0, inp, sig='dq-add')
             ok, r = L.noraise('dq-conj', lambda: (A.conj().vec, np.r_[b.conj(A.real.vec), b.conj(A.dual.vec)]), inp, 'DualQuaternion.conj')
             if ok: L.close('dq-conj', r[0], r[1], 1e-12, 2.0, inp)
             # unit dual quaternions of rigid motions with rotations up to a half turn and beyond (products past 180 deg)
